@@ -180,9 +180,20 @@ def run(ctx):
         return cases
 
     def harness(n, seed, tag, check_coq):
-        recs, okrun, log = ctx.go_harness(PKG, ["zz_verif_k8s_test.go"], "TestVerifK8s$", n=n, seed=seed, tag=tag,
+        recs, okrun, log = ctx.go_harness(PKG, ["zz_verif_k8s_test.go", "zz_verif_kproj_test.go"], "TestVerifK8s$", n=n, seed=seed, tag=tag,
                                           extra_overlay={PKG + "/zz_verif_gen_test.go": gen})
         cases = records(recs, okrun, log, "TestVerifK8s")
+        # the real FRRK8sReconciler fed by the real session manager (fake API server): generator and projection
+        # are shared source files with the package clause rewritten
+        ov = {}
+        for src, name in ((gen, "zz_verif_gen_test.go"), (os.path.join(os.path.dirname(gen), "..", "frrk8s", "zz_verif_kproj_test.go"), "zz_verif_kproj_test.go")):
+            txt = open(src).read().replace("\npackage frr\n", "\npackage controllers\n", 1)
+            dst = os.path.join(ctx.work, "ctl_" + name)
+            open(dst, "w").write(txt)
+            ov["internal/k8s/controllers/" + name] = dst
+        recs, okrun, log = ctx.go_harness("internal/k8s/controllers", ["zz_verif_k8srec_test.go"], "TestVerifK8sRec$",
+                                          n=max(20, n // 4), seed=seed, tag=tag + "rec", extra_overlay=ov)
+        cases += records(recs, okrun, log, "TestVerifK8sRec")
         terms = []
         for c in cases:
             for s in c["in"]["sessions"]:
@@ -226,9 +237,10 @@ def run(ctx):
 
     cases, mism = harness(n, ctx.seed, "h", True)
     st = state["stats"]
-    if cases:
+    if cases and not ctx.corr_broken and not ctx.violations:
         for k in ("input_with_password_and_secret", "secret_ref", "password", "unnumbered", "repeated_prefix", "repeated_prefix_other_localpref",
-                  "adv_with_localpref", "communities", "neighbor_without_advertisement", "multi_neighbor", "pw_cases"):
+                  "adv_with_localpref", "communities", "neighbor_without_advertisement", "multi_neighbor", "pw_cases",
+                  "reconciled_cases", "reconciled_at_debug", "reconciled_with_password", "reconciled_with_secret_ref"):
             if st.get(k, 0) == 0:
                 raise Exception("generator degenerate: counter %s is zero: %r" % (k, st))
 
